@@ -8,6 +8,11 @@ Tie: every creator class of the library x a finite grid of constructor arguments
 creator supports, on the real objects: (oracle) outputs equal those of fresh objects, deep vars() snapshots unchanged
 modulo dialect slots, settings dicts unchanged, SQL parses (sqlglot); (correspondence) the statefulness observed per
 class is the one the table and the compiled model (driver op creator_calls) predict.
+Generator audit additions (more_cases, grid_extras, shared_cases, the extras of sequences(), history_pass): further column forms, boundary values,
+iterable forms of list arguments (reference = plain lists), omitted arguments (the signature's own mutable defaults), creators / lists / dicts
+shared by several consumers (kind 'multi'), settings as saved-model dictionary / JSON file; steps that are dialect-free calls, calls in
+unsupported dialects, configure() between calls; watched besides vars(): the caller's argument objects, default-argument objects and class
+attributes; a history pass recomputes every fresh-object reference in processes of their own (state kept outside the objects).
 """
 from __future__ import annotations
 
@@ -27,32 +32,96 @@ MODS = {"cll": "splink.internals.comparison_level_library", "cl": "splink.intern
 
 
 # --------------------------------------------------------------------------- building objects from JSON specs
-def build(spec):
-    """JSON spec -> object.  {"col":name,"ops":[[method,*args],..]} ColumnExpression; {"cls":"mod.Class","args":[..],"kwargs":{..},
-    "configure":{..}} creator; {"fn":"block_on",...}; {"raw":x} / plain JSON: itself (dicts of level/comparison settings included)."""
-    import importlib
+ITERABLE_FORMS = ("iter", "gen", "tuple", "range")
 
+
+class Env:
+    """One build: objects named in case['shared'] are built once and handed (the SAME object) to every spec that says {"ref": name};
+    `keep` collects every mutable / Splink object that was passed to a constructor, so that the caller's own arguments can be
+    compared before / after the calls."""
+
+    def __init__(self, shared=None, keep=None, listified=False):
+        self.specs, self.objs, self.keep, self.listified = shared or {}, {}, keep, listified
+        self.pre = []  # per kept object: its leaves as they were just BEFORE it was first handed to a constructor
+
+    def get(self, name):
+        if name not in self.objs:
+            spec = self.specs[name]
+            self.objs[name] = build(listify(spec) if self.listified else spec, self)
+            self.kept(self.objs[name])
+        return self.objs[name]
+
+    def kept(self, v):
+        if self.keep is not None and (isinstance(v, (list, dict)) or is_splink_obj(v) or hasattr(v, "__next__")) and not any(v is k for k in self.keep):
+            self.keep.append(v)
+            self.pre.append(snapshot(v)[0])
+        return v
+
+    def leaves_before(self) -> dict:
+        """The kept objects' leaves before any constructor saw them, under the paths snapshot(self.keep) gives."""
+        out = {".<len>": f"list{len(self.keep)}"}
+        for i, lv in enumerate(self.pre):
+            for p, v in lv.items():
+                out[f".{i}{p}" if p.startswith(".") or not p else f".{i}.{p}"] = v
+        return out
+
+
+def listify(spec):
+    """The same spec with every iterable form ({"iter"|"gen"|"tuple": [..]}, {"range": [a, b]}) replaced by the plain list of its elements."""
     if isinstance(spec, list):
-        return [build(x) for x in spec]
+        return [listify(x) for x in spec]
     if not isinstance(spec, dict):
         return spec
+    for k in ("iter", "gen", "tuple"):
+        if k in spec and len(spec) == 1:
+            return listify(spec[k])
+    if "range" in spec and len(spec) == 1:
+        return list(range(*spec["range"]))
+    return {k: listify(v) for k, v in spec.items()}
+
+
+def build(spec, env=None):
+    """JSON spec -> object.  {"col":name,"ops":[[method,*args],..]} ColumnExpression (name may be {"ref":..}: derive from a shared one);
+    {"cls":"mod.Class","args":[..],"kwargs":{..},"configure":{..}} creator; {"fn":"block_on",...}; {"raw":x} / plain JSON: itself (dicts of
+    level/comparison settings included); {"ref":name}: the shared object of that name; {"iter"|"gen"|"tuple":[..]} / {"range":[a,b]}: that iterable."""
+    import importlib
+
+    env = env or Env()
+    if isinstance(spec, list):
+        return [build(x, env) for x in spec]
+    if not isinstance(spec, dict):
+        return spec
+    if "ref" in spec:
+        return env.get(spec["ref"])
+    if len(spec) == 1 and next(iter(spec)) in ITERABLE_FORMS:
+        if "range" in spec:
+            return range(*spec["range"])
+        vals = build(next(iter(spec.values())), env)
+        return iter(vals) if "iter" in spec else tuple(vals) if "tuple" in spec else (v for v in vals)
     if "col" in spec:
         from splink.internals.column_expression import ColumnExpression
 
-        c = ColumnExpression(spec["col"])
+        if isinstance(spec["col"], dict):
+            c = build(spec["col"], env)
+        elif spec.get("dialect"):  # a ColumnExpression the user constructed for one dialect (second constructor argument) and then uses anywhere
+            from splink.internals.dialects import SplinkDialect
+
+            c = ColumnExpression(spec["col"], SplinkDialect.from_string(spec["dialect"]))
+        else:
+            c = ColumnExpression(spec["col"])
         for op in spec.get("ops", []):
             c = getattr(c, op[0])(*op[1:])
         return c
     if "raw" in spec:
-        return {k: build(v) for k, v in spec["raw"].items()}
+        return {k: build(v, env) for k, v in spec["raw"].items()}
     if "cls" in spec or "fn" in spec:
         mod, name = (spec.get("cls") or spec["fn"]).split(".")
         f = getattr(importlib.import_module(MODS[mod]), name)
-        obj = f(*[build(a) for a in spec.get("args", [])], **{k: build(v) for k, v in spec.get("kwargs", {}).items()})
+        obj = f(*[env.kept(build(a, env)) for a in spec.get("args", [])], **{k: env.kept(build(v, env)) for k, v in spec.get("kwargs", {}).items()})
         if spec.get("configure"):
-            obj = obj.configure(**{k: build(v) for k, v in spec["configure"].items()})
+            obj = obj.configure(**{k: env.kept(build(v, env)) for k, v in spec["configure"].items()})
         return obj
-    return {k: build(v) for k, v in spec.items()}
+    return {k: build(v, env) for k, v in spec.items()}
 
 
 def class_key(obj) -> str:
@@ -162,7 +231,43 @@ class Table:
 
 
 # --------------------------------------------------------------------------- one case on the real code
+def raised(e: Exception) -> dict:
+    import re
+
+    return {"raised": f"{type(e).__name__}: {re.sub(r'0x[0-9a-fA-F]+', '0x', str(e))[:200]}"}
+
+
+def meta_call(kind, obj):
+    """The dialect-free public surface of a creator (labels, descriptions, names, counts, repr): no dialect argument, so the answer may
+    depend neither on whether a dialect was ever set nor on which one was set last."""
+
+    def att(f):
+        try:
+            return f()
+        except Exception as e:  # noqa: BLE001
+            return raised(e)
+
+    if kind == "level":
+        return {"label": att(obj.create_label_for_charts), "repr": att(lambda: repr(obj)), "is_null_level": att(lambda: obj.is_null_level),
+                "is_exact_match_level": att(lambda: obj.is_exact_match_level), "tf": att(lambda: bool(obj.term_frequency_adjustments))}
+    if kind == "comparison":
+        return {"description": att(obj.create_description), "output_column_name": att(obj.create_output_column_name), "repr": att(lambda: repr(obj)),
+                "num_levels": att(lambda: obj.num_levels), "num_non_null_levels": att(lambda: obj.num_non_null_levels),
+                "labels": att(lambda: [lv.create_label_for_charts() for lv in obj.get_configured_comparison_levels()]),
+                "configured": att(lambda: [[getattr(lv, "m_probability", None), getattr(lv, "u_probability", None), bool(lv.term_frequency_adjustments)] for lv in obj.get_configured_comparison_levels()])}
+    if kind == "blocking":
+        return {"salting_partitions": att(lambda: obj.salting_partitions), "arrays_to_explode": att(lambda: obj.arrays_to_explode)}
+    if kind == "settings":
+        import dataclasses
+
+        return {"fields": att(lambda: {f.name: getattr(obj, f.name) for f in dataclasses.fields(obj) if f.name not in ("comparisons", "blocking_rules_to_generate_predictions")}),
+                "n": att(lambda: [len(obj.comparisons), len(obj.blocking_rules_to_generate_predictions)])}
+    raise core.HarnessError(kind)
+
+
 def api_call(kind, obj, api, d):
+    if api == "meta":
+        return meta_call(kind, obj)
     if kind == "level":
         if api == "dict":
             return {"level_dict": obj.create_level_dict(d), "label": obj.create_label_for_charts()}
@@ -187,6 +292,12 @@ def api_call(kind, obj, api, d):
 
 def canon(x):
     return json.loads(json.dumps(x, sort_keys=True, default=repr))
+
+
+def digest(x) -> str:
+    import hashlib
+
+    return hashlib.md5(json.dumps(x, sort_keys=True, default=repr).encode()).hexdigest()
 
 
 def unsupported(e: Exception) -> str | None:
@@ -216,16 +327,92 @@ def sql_strings(kind, res):
     return out
 
 
-def sequences(case, dialects):
-    """(api, dialect) sequences to run, each on its own new object (every prefix is checked on the way).
+def consumers_of(case):
+    """The objects of a case on which calls are made: one (the usual case) or, for kind 'multi', several that hold the same shared sub-objects."""
+    return case["consumers"] if case["kind"] == "multi" else [{"kind": case["kind"], "spec": case["spec"]}]
+
+
+def make(case, only=None, listified=False, keep=None, env_out=None):
+    """Build the consumer(s) of a case on newly built shared objects.  only=i: just consumer i (None elsewhere)."""
+    env = Env(case.get("shared"), keep, listified)
+    if env_out is not None:
+        env_out.append(env)
+    objs = []
+    for i, c in enumerate(consumers_of(case)):
+        if only is not None and i != only:
+            objs.append(None)
+            continue
+        spec = listify(c["spec"]) if listified else c["spec"]
+        objs.append(build_settings(spec, env) if c["kind"] == "settings" else build(spec, env))
+    return objs
+
+
+def fkey(api, d, idx=0) -> str:
+    return f"{api}:{d}" if not idx else f"{api}:{d}#{idx}"
+
+
+def configure_options(kind, obj):
+    """configure() argument sets (specs) that every creator of the kind accepts; the probabilities lists fit the object's number of levels."""
+    if kind == "level":
+        return [{"m_probability": 0.8, "u_probability": 0.05}, {"label_for_charts": "relabelled", "tf_adjustment_column": col("first name", ["lower"]), "tf_adjustment_weight": 0.5},
+                {"m_probability": None, "label_for_charts": None, "fix_m_probability": True}, {"is_null_level": True, "disable_tf_exact_match_detection": True, "tf_adjustment_weight": 0}]
+    if kind == "comparison":
+        n = obj.num_non_null_levels
+        m = [round((n - i) / (n * (n + 1) / 2), 6) for i in range(n)]
+        return [{"term_frequency_adjustments": True}, {"m_probabilities": m, "u_probabilities": m[::-1]}, {"term_frequency_adjustments": False}, {"m_probabilities": [round(1 / max(n, 1), 6)] * n}]
+    if kind == "settings":  # SettingsCreator is a plain mutable dataclass: the user re-assigns fields between calls
+        return [{"probability_two_random_records_match": 0.3}, {"retain_intermediate_calculation_columns": True, "additional_columns_to_retain": ["x", "y"]},
+                {"max_iterations": 7, "em_convergence": 0.002}, {"term_frequency_adjustment_column_prefix": "tfadj_", "linker_uid": "changed"}]
+    return []
+
+
+def apply_configure(obj, cfg):
+    try:
+        if hasattr(obj, "configure"):
+            obj.configure(**{k: build(v) for k, v in cfg.items()})
+        else:
+            for k, v in cfg.items():
+                setattr(obj, k, build(v))
+        return None
+    except Exception as e:  # noqa: BLE001
+        return raised(e)["raised"]
+
+
+def step_parts(step):
+    return step[0], step[1], (step[2] if len(step) > 2 else 0)
+
+
+def sequences(case, dialects, unsup=(), n_cfg=None, kinds=None):
+    """Step sequences to run, each on its own new object(s) (every prefix is checked on the way).  A step is [api, arg] or [api, arg, consumer]:
+    api 'dict' / 'obj' (arg = dialect), 'meta' (dialect-free calls, arg None), 'configure' (arg = index of a configure() argument set).
     exh_len: all dialect sequences of that length with the dict API; pairs: 'all' | 'obj' (every 2-step sequence over
     {dict, obj} x dialects / only those with at least one get_* call) | n (seeded sample); sampled: {length: n} extra
-    seeded sequences mixing both APIs."""
+    seeded sequences mixing both APIs.  extras (case['extras'], default on): sequences with meta calls first / last / in between, with a
+    call in an UNSUPPORTED dialect (which raises) before supported ones, and (n_cfg) with configure() between calls.
+    kind 'multi': sequences alternating between the consumers."""
     if not dialects:
         return []
     rng = random.Random(case["seq_seed"])
-    seqs = [[("dict", d) for d in s] for s in itertools.product(dialects, repeat=case["exh_len"])]
+    n_cons = len(kinds or [None])
     steps = [(a, d) for a in ("dict", "obj") for d in dialects]
+    if n_cons > 1:
+        seqs = []
+        both = lambda: list(rng.choice(steps))  # noqa: E731
+        for i in range(n_cons):
+            for j in range(n_cons):
+                if i != j:
+                    for _ in range(int(case.get("per_pair", 2))):
+                        seqs.append([both() + [i], both() + [j]])
+                    seqs.append([both() + [i], both() + [j], ["meta", None, i]])
+        for _ in range(int(case.get("n_long", 8))):
+            order = [rng.randrange(n_cons) for _ in range(4)]
+            seqs.append([(both() if rng.random() < 0.8 else ["meta", None]) + [i] for i in order])
+        if unsup:
+            for u in unsup[:2]:
+                i, j = rng.sample(range(n_cons), 2)
+                seqs.append([[rng.choice(("dict", "obj")), u, i], both() + [j], both() + [i]])
+        return seqs
+    seqs = [[("dict", d) for d in s] for s in itertools.product(dialects, repeat=case["exh_len"])]
     pairs = [[s1, s2] for s1 in steps for s2 in steps]
     if case["pairs"] == "obj":
         pairs = [p for p in pairs if p[0][0] == "obj" or p[1][0] == "obj"]
@@ -237,87 +424,210 @@ def sequences(case, dialects):
     for L, n in sorted(case["sampled"].items()):
         for _ in range(n):
             seqs.append([rng.choice(steps) for _ in range(int(L))])
-    return seqs
+    if not case.get("extras", True):
+        return seqs
+    rng = random.Random(case["seq_seed"] + 1)
+    M = ("meta", None)
+    heavy = kinds and kinds[0] in ("comparison", "settings")
+    extra = []
+    for k, d in enumerate(dialects):  # a dialect-free call before any dialect was set / right after each dialect
+        a = ("dict", "obj")[k % 2]
+        extra += [[M, (a, d)], [(a, d), M]]
+    if heavy:
+        rng.shuffle(extra)
+        extra = extra[:2]
+    extra += [[rng.choice(steps), rng.choice(steps), M], [M, rng.choice(steps), M, rng.choice(steps)]][: 1 if heavy else 2]
+    us = list(unsup)
+    rng.shuffle(us)
+    for u in us[: 1 if heavy else 5]:  # a failed call followed by later calls
+        a, b = rng.choice(("dict", "obj")), rng.choice(steps)
+        extra.append([(a, u), b])
+        extra.append([rng.choice(steps), (a, u), M, b])
+    if n_cfg:
+        C = lambda: ("configure", rng.randrange(n_cfg))  # noqa: E731
+        for _ in range(2 if heavy else 3):
+            s1, c1, c2 = rng.choice(steps), C(), C()
+            extra += [[s1, c1, s1], [c1, rng.choice(steps), c2, rng.choice(steps)]]
+        c1 = C()
+        extra += [[rng.choice(steps), c1, c1, rng.choice(steps)], [C(), M, rng.choice(steps), M]]
+    return seqs + extra
+
+
+ANCHOR_MODULES = ["comparison_level_creator", "comparison_creator", "comparison_level_library", "comparison_library", "blocking_rule_creator", "blocking_rule_library",
+                  "column_expression", "settings_creator", "comparison_level_composition", "blocking_rule_creator_utils"]
+
+
+def global_state() -> dict:
+    """State that belongs to no creator object: default argument values, class attributes and module-level containers of the anchored modules."""
+    import importlib
+
+    out = {}
+    for m in ANCHOR_MODULES:
+        M = importlib.import_module("splink.internals." + m)
+        for k, v in list(vars(M).items()):
+            if k.startswith("__"):
+                continue
+            if isinstance(v, (dict, list, set)):
+                out[f"{m}.{k} (container)"] = repr(v)[:400]
+            if inspect.isclass(v) and v.__module__ == M.__name__:
+                for a, x in list(vars(v).items()):
+                    if inspect.isfunction(x):
+                        if x.__defaults__ or x.__kwdefaults__:
+                            out[f"{m}.{k}.{a}(defaults)"] = repr((x.__defaults__, x.__kwdefaults__))
+                    elif not (a.startswith("__") or a == "_abc_impl" or callable(x) or isinstance(x, (property, staticmethod, classmethod))):
+                        out[f"{m}.{k}.{a}" + (" (container)" if isinstance(x, (dict, list, set)) else "")] = repr(x)[:400]
+            elif inspect.isfunction(v) and v.__module__ == M.__name__ and (v.__defaults__ or v.__kwdefaults__):
+                out[f"{m}.{k}(defaults)"] = repr((v.__defaults__, v.__kwdefaults__))
+    return out
 
 
 def run_impl(case: dict) -> dict:
+    import time
+
     import sqlglot
 
     from splink.internals.dialects import SplinkDialect
 
-    kind = case["kind"]
-    mk = (lambda: build_settings(case["spec"])) if kind == "settings" else (lambda: build(case["spec"]))
+    cons = consumers_of(case)
+    kinds = [c["kind"] for c in cons]
+    multi = len(cons) > 1
+    wrap = (lambda objs: objs) if multi else (lambda objs: objs[0])
+    g0 = global_state()
     try:
-        probe = mk()
+        make(case, listified=True)
     except Exception as e:  # noqa: BLE001  constructor rejects the argument combination: outside the grid
         return {"constructor_rejects": f"{type(e).__name__}: {str(e)[:120]}"}
-    import time
-
+    try:
+        probe = make(case)
+    except Exception as e:  # noqa: BLE001  ... but accepts the same elements as a plain list
+        return {"form_rejected": f"{type(e).__name__}: {str(e)[:200]}"}
     t0 = time.time()
-    out = {"cls": class_key(probe), "fresh": {}, "unsupported": {}, "parse_failures": [], "output_diffs": [], "state_changes": {}, "calls": 0, "sequences": 0,
-           "nested": sorted({o[1] for ch in snapshot(probe)[1].values() for o in ch})}
-    # reference: a fresh object called once
-    for d in DIALECTS:
-        for api in ("dict", "obj"):
-            try:
-                out["fresh"][f"{api}:{d}"] = canon(api_call(kind, mk(), api, d))
-            except Exception as e:  # noqa: BLE001
-                why = unsupported(e)
-                if why is None:
-                    import traceback
+    out = {"cls": class_key(probe[0]), "fresh": {}, "unsupported": {}, "parse_failures": [], "output_diffs": [], "state_changes": {}, "arg_changes": {}, "calls": 0, "sequences": 0,
+           "steps": {}, "nested": sorted({o[1] for pr in probe for ch in snapshot(pr)[1].values() for o in ch})}
+    cfgs = [configure_options(k, o) if case.get("configure_steps") else [] for k, o in zip(kinds, probe)]
+    # reference: a fresh object (built from the plain-list form of the arguments) called once
+    refs = {}
 
-                    tb = traceback.format_exc()
-                    if 'File "/repo/' not in tb and "splink" not in tb:
-                        raise
-                    why = f"{type(e).__name__}: {str(e)[:160]}"
-                out["unsupported"][d] = why
-    sup = [d for d in DIALECTS if d not in out["unsupported"]]
-    out["supported"] = sup
-    # "parses in that dialect" (sqlglot is the oracle here, outside Lean)
-    for d in sup:
-        sgd = SplinkDialect.from_string(d).sqlglot_dialect
-        for sql in sql_strings(kind, out["fresh"][f"dict:{d}"]):
-            if sql.strip().upper() == "ELSE":
-                continue
+    def reference(idx, applied, api, d):
+        key = (idx, applied, api, d)
+        if key not in refs:
+            o = make(case, only=idx, listified=True)[idx]
+            for c in applied:
+                apply_configure(o, cfgs[idx][c])
             try:
-                sqlglot.parse_one(sql, read=sgd)
+                refs[key] = canon(api_call(kinds[idx], o, api, d))
             except Exception as e:  # noqa: BLE001
-                out["parse_failures"].append({"dialect": d, "sql": sql, "error": f"{type(e).__name__}: {str(e)[:200]}"})
+                refs[key] = e
+        return refs[key]
+
+    for idx in range(len(cons)):
+        for d in DIALECTS:
+            for api in ("dict", "obj"):
+                r = reference(idx, (), api, d)
+                if isinstance(r, Exception):
+                    why = unsupported(r)
+                    if why is None:
+                        import traceback
+
+                        tb = "".join(traceback.format_exception(type(r), r, r.__traceback__))
+                        if 'File "/repo/' not in tb and "splink" not in tb:
+                            raise r
+                        why = f"{type(r).__name__}: {str(r)[:160]}"
+                    out["unsupported"][d] = why
+                    out["fresh"][fkey(api, d, idx)] = refs[(idx, (), api, d)] = raised(r)
+                else:
+                    out["fresh"][fkey(api, d, idx)] = r
+        out["fresh"][fkey("meta", None, idx)] = reference(idx, (), "meta", None)
+    sup = [d for d in DIALECTS if d not in out["unsupported"]]
+    unsup = [d for d in DIALECTS if d in out["unsupported"]]
+    out["supported"] = sup
+    out["fresh_digest"] = {k: digest(v) for k, v in out["fresh"].items()}
+    # "parses in that dialect" (sqlglot is the oracle here, outside Lean); a settings dictionary written for one dialect is SQL of that dialect only
+    own = [c["spec"].get("base", "duckdb") for c in cons if c["kind"] == "settings" and c["spec"].get("form", "creator") != "creator"]
+    for d in sup:
+        if own and d not in own:
+            continue
+        sgd = SplinkDialect.from_string(d).sqlglot_dialect
+        for idx in range(len(cons)):
+            for sql in sql_strings(kinds[idx], out["fresh"][fkey("dict", d, idx)]):
+                if sql.strip().upper() == "ELSE":
+                    continue
+                try:
+                    sqlglot.parse_one(sql, read=sgd)
+                except Exception as e:  # noqa: BLE001
+                    out["parse_failures"].append({"dialect": d, "sql": sql, "error": f"{type(e).__name__}: {str(e)[:200]}"})
     # call sequences
-    for seq in sequences(case, sup):
-        obj = mk()
-        before = snapshot(obj)
+    for seq in sequences(case, sup, unsup, n_cfg=min((len(c) for c in cfgs), default=0), kinds=kinds):
+        keep, envs = [], []
+        objs = make(case, keep=keep, env_out=envs)
+        applied = [() for _ in objs]
+        has_cfg = any(st[0] == "configure" for st in seq)
+        before = None if has_cfg else snapshot(wrap(objs))
+        args_before = envs[0].leaves_before()  # as the caller made them: a constructor must not change them either
         out["sequences"] += 1
-        for i, (api, d) in enumerate(seq):
+        for i, st in enumerate(seq):
+            api, d, idx = step_parts(st)
+            sk = api if api in ("meta", "configure") else "failed_call" if d in out["unsupported"] else api
+            out["steps"][sk] = out["steps"].get(sk, 0) + 1
+            if api == "configure":
+                if apply_configure(objs[idx], cfgs[idx][d]) is not None:
+                    out["configure_raised"] = out.get("configure_raised", 0) + 1
+                applied[idx] += (d,)
+                continue
             out["calls"] += 1
             try:
-                got = canon(api_call(kind, obj, api, d))
+                got = canon(api_call(kinds[idx], objs[idx], api, d))
             except Exception as e:  # noqa: BLE001
-                got = {"raised": f"{type(e).__name__}: {str(e)[:200]}"}
-            if got != out["fresh"][f"{api}:{d}"] and len(out["output_diffs"]) < 3:
-                out["output_diffs"].append({"sequence": seq[: i + 1], "call_index": i, "got": got, "fresh": out["fresh"][f"{api}:{d}"]})
-            if got != out["fresh"][f"{api}:{d}"]:
+                got = raised(e)
+            want = reference(idx, applied[idx], api, d)
+            if isinstance(want, Exception):
+                want = raised(want)
+            if got != want:
+                if len(out["output_diffs"]) < 3:
+                    out["output_diffs"].append({"sequence": seq[: i + 1], "call_index": i, "got": got, "fresh": want})
                 out["n_output_diffs"] = out.get("n_output_diffs", 0) + 1
                 out["first_diff_call"] = min(out.get("first_diff_call", 99), i)
-        after = snapshot(obj)
+        if has_cfg:  # the attributes configure() sets are meant to change: compare with a new object configured the same way and never called
+            ref_objs = make(case)
+            for idx, ap in enumerate(applied):
+                for c in ap:
+                    apply_configure(ref_objs[idx], cfgs[idx][c])
+            before = snapshot(wrap(ref_objs))
+        after = snapshot(wrap(objs))
         for p in set(before[0]) | set(after[0]):
             a, b = before[0].get(p, "<absent>"), after[0].get(p, "<absent>")
             if a != b and p not in out["state_changes"]:
                 src = after if p in after[0] else before
                 out["state_changes"][p] = {"before": a, "after": b, "owners": src[1][p], "direct": src[2][p], "sequence": seq}
+        args_after = snapshot(keep)
+        for p in set(args_before) | set(args_after[0]):
+            a, b = args_before.get(p, "<absent>"), args_after[0].get(p, "<absent>")
+            if a != b and p not in out["arg_changes"]:
+                out["arg_changes"][p] = {"before": a, "after": b, "direct": args_after[2].get(p), "sequence": seq}
+        out["args_kept"] = max(out.get("args_kept", 0), len(keep))
     # a settings dict handed to SettingsCreator must stay as it was
-    if kind == "settings":
+    if kinds == ["settings"]:
         from splink.internals.settings_creator import SettingsCreator
 
-        sd = settings_dict(case["spec"])
+        spec = case["spec"]
+        sd = settings_dict(spec, Env(case.get("shared")))
+        if spec.get("form", "creator") != "creator":  # the saved-model dictionary (with its "sql_dialect" entries) is the user's object here
+            sd = SettingsCreator(**sd).get_settings(spec.get("base", "duckdb")).as_dict()
         keep = copy.deepcopy(json.loads(json.dumps(sd, default=lambda o: f"<obj {id(o)}>")))
         snaps = [snapshot(x)[0] for x in sd["comparisons"] + sd["blocking_rules_to_generate_predictions"] if is_splink_obj(x)]
         for d in (sup[:2] + sup[:1]):
             SettingsCreator.from_path_or_dict(sd).get_settings(d)
-            SettingsCreator(**sd).create_settings_dict(d)
+            if "sql_dialect" not in sd:
+                SettingsCreator(**sd).create_settings_dict(d)
+            else:
+                SettingsCreator.from_path_or_dict(sd).create_settings_dict(d)
         now = json.loads(json.dumps(sd, default=lambda o: f"<obj {id(o)}>"))
         out["dict_unchanged"] = now == keep
         out["dict_creators_unchanged"] = snaps == [snapshot(x)[0] for x in sd["comparisons"] + sd["blocking_rules_to_generate_predictions"] if is_splink_obj(x)]
+    g1 = global_state()
+    # a module / class level container that grows may be a correctly keyed cache: recorded, and left to the history pass to judge
+    out["global_changes"] = {k: [g0.get(k, "<absent>"), g1.get(k, "<absent>")] for k in g0 if g0[k] != g1.get(k, "<absent>") and not k.endswith("(container)")}
+    out["global_containers_changed"] = sorted(k for k in g0 if g0[k] != g1.get(k, "<absent>") and k.endswith("(container)"))
     out["secs"] = round(time.time() - t0, 2)
     return out
 
@@ -325,16 +635,98 @@ def run_impl(case: dict) -> dict:
 run_impl_safe = core.safe(run_impl)
 
 
-def settings_dict(spec):
-    return {"link_type": spec["link_type"], "comparisons": [build(c) for c in spec["comparisons"]],
-            "blocking_rules_to_generate_predictions": [build(b) for b in spec["blocking_rules"]], "probability_two_random_records_match": 0.01,
-            "additional_columns_to_retain": ["cluster"]}
+def history_pass(task: dict) -> dict:
+    """Runs in a process of its own that has made no Splink call before: every case's fresh-object reference outputs are recomputed
+    for the task's dialects only and in the task's case order, and compared (by digest) with those of the main pass, where the same
+    process had served other dialects and other cases before.  A difference = the output of a *new* object depends on what happened
+    to other objects earlier (state kept outside the object: module / class level memo, mutated default argument, ...)."""
+    items = list(reversed(task["cases"])) if task["reverse"] else task["cases"]
+    n, mism = 0, []
+    for i, case, want in items:
+        cons = consumers_of(case)
+        for idx, c in enumerate(cons):
+            for d in task["dialects"]:
+                for api in task.get("apis", ("dict",)):
+                    k = fkey(api, d, idx)
+                    if k not in want:
+                        continue
+                    try:
+                        got = canon(api_call(c["kind"], make(case, only=idx, listified=True)[idx], api, d))
+                    except Exception as e:  # noqa: BLE001
+                        got = raised(e)
+                    n += 1
+                    if digest(got) != want[k] and len(mism) < 4:
+                        mism.append({"case_index": i, "key": k, "isolated": got})
+    return {"compared": n, "mismatches": mism}
 
 
-def build_settings(spec):
+def _iso_child(func, item, conn):
+    try:
+        core._init_worker()
+        conn.send(func(item))
+    except Exception as e:  # noqa: BLE001
+        import traceback
+
+        conn.send({"__error__": type(e).__name__, "text": str(e)[:500], "tb": traceback.format_exc()[-3000:]})
+    finally:
+        conn.close()
+
+
+def run_isolated(func, items):
+    """func(item) for every item, each in a forked process of its own (a pool would reuse processes)."""
+    import multiprocessing as mp
+
+    ctx = mp.get_context("fork")
+    procs = []
+    for it in items:
+        recv, send = ctx.Pipe(False)
+        p = ctx.Process(target=_iso_child, args=(func, it, send))
+        p.start()
+        send.close()
+        procs.append((p, recv))
+    out = []
+    for p, recv in procs:
+        try:
+            out.append(recv.recv())
+        except EOFError:
+            out.append({"__error__": "EOFError", "text": "isolated process died", "tb": ""})
+        p.join()
+    return out
+
+
+def settings_dict(spec, env=None):
+    env = env or Env()
+    d = {"link_type": spec["link_type"], "comparisons": [build(c, env) for c in spec["comparisons"]],
+         "blocking_rules_to_generate_predictions": [build(b, env) for b in spec["blocking_rules"]], "probability_two_random_records_match": 0.01,
+         "additional_columns_to_retain": ["cluster"]}
+    d.update(build(spec.get("options", {}), env))
+    return env.kept(d)
+
+
+def build_settings(spec, env=None):
+    """form 'creator': SettingsCreator(**kwargs holding creator objects / dicts / strings); 'dict': the plain dictionary of a saved model
+    (Settings.as_dict() for spec['base'], with its 'sql_dialect' entries) through from_path_or_dict; 'path' / 'pathobj': the same as a JSON file."""
     from splink.internals.settings_creator import SettingsCreator
 
-    return SettingsCreator(**settings_dict(spec))
+    env = env or Env()
+    form = spec.get("form", "creator")
+    sc = SettingsCreator(**settings_dict(spec, env if form == "creator" else Env(env.specs, None, env.listified)))
+    if form == "creator":
+        return sc
+    saved = sc.get_settings(spec.get("base", "duckdb")).as_dict()
+    if form == "dict":
+        return SettingsCreator.from_path_or_dict(env.kept(saved))
+    import os
+    import tempfile
+    from pathlib import Path
+
+    fd, path = tempfile.mkstemp(suffix=".json", prefix="c17_settings_")
+    try:
+        with os.fdopen(fd, "w") as f:
+            json.dump(saved, f)
+        return SettingsCreator.from_path_or_dict(Path(path) if form == "pathobj" else path)
+    finally:
+        os.unlink(path)
 
 
 # --------------------------------------------------------------------------- the grid
@@ -371,6 +763,22 @@ OVERRIDE = {
     "comparison_library.PostcodeComparison": {"lat_col": [None, "lat"], "long_col": [None, "lng"]},
 }
 MOD_ALIAS = {"comparison_level_library": "cll", "comparison_library": "cl", "blocking_rule_library": "brl", "comparison_level_composition": "clc"}
+# further column forms, one (quick) / three (thorough) seeded picks per class: names that need quoting for other reasons than a blank (reserved words,
+# hyphen, non-ASCII, leading digit, mixed case), table-qualified and indexed column references, longer transform chains, a regex with
+# backslash classes and a capture group, explicit formats, raw SQL expressions holding a literal
+EXTRA_COLS = ["order", "first-name", "na\u00efve", "Group", "1st", "tbl.first_name", "arr[1]", col("order", ["lower"], ["substr", 1, 2], ["nullif", ""]),
+              col("postcode", ["regex_extract", "^(\\w+)\\s", 1]), col("dob", ["try_parse_date", "%Y/%m/%d"], ["cast_to_string"]), col("ts", ["try_parse_timestamp", "%Y-%m-%dT%H:%M:%S"]),
+              col("arr", ["access_extreme_array_element", "first"]), col("first name", ["lower"], ["nullif", "n/a"]), "coalesce(first_name, '')", "first_name || ' ' || surname",
+              {"col": "first name", "dialect": "spark", "ops": []}, {"col": "surname", "dialect": "sqlite", "ops": [["lower"]]}]
+# boundary values of the public arguments, each tried alone on the first grid point of every class that has the parameter
+BOUNDARY = {
+    "distance_threshold": [0, 1.0], "threshold": [0, 1e-07], "km_threshold": [0], "similarity_threshold": [1], "min_intersection": [0], "percentage_threshold": [0, 1e-07],
+    "difference_threshold": [0], "salting_partitions": [0], "arrays_to_explode": [[], ["arr", "tags"]], "distance_threshold_or_thresholds": [[], [2, 1, 1], 0],
+    "score_threshold_or_thresholds": [[], [1.0], [0.7, 0.9, 0.7]], "size_threshold_or_thresholds": [[0], [1, 1]], "km_thresholds": [[0], [10, 1, 10]], "jaro_winkler_thresholds": [[], [1.0]],
+    "metric": ["month"], "literal_value": [""], "valid_string_pattern": ["^\\d+$"], "label_for_charts": ["it's 100%"], "sql_dialect": ["sqlite"], "base_dialect_str": ["sqlite"],
+    "datetime_format": ["%Y-%m-%dT%H:%M:%S"], "comparison_description": [""],
+}
+PAIRED_BOUNDARY = {("metrics", "thresholds"): [(["day"], [0]), ("month", 0.5)], ("datetime_thresholds", "datetime_metrics"): [([1], ["day"]), ([0, 1], ["day", "month"])]}
 
 
 def level_spec(name, *args, configure=None, **kw):
@@ -480,6 +888,90 @@ def grid_for(ckey: str, thorough: bool, rng: random.Random, kind: str = "level")
     return specs
 
 
+def grid_extras(ckey: str, base: dict, thorough: bool, rng: random.Random):
+    """Further argument families around the first grid point of a class -> [(family, label, spec)]."""
+    import importlib
+
+    mod, name = ckey.split(".")
+    cls = getattr(importlib.import_module("splink.internals." + mod), name)
+    params = {p.name: p for p in list(inspect.signature(cls.__init__).parameters.values())[1:] if p.kind not in (p.VAR_POSITIONAL, p.VAR_KEYWORD)}
+    kw = base["kwargs"]
+    mk = lambda ch: {"cls": base["cls"], "args": [], "kwargs": {**kw, **ch}}  # noqa: E731
+    lab = lambda v: json.dumps(v)[:60]  # noqa: E731
+    out = []
+    first = next((n for n in params if n in COL_PARAMS), None)
+    if first:
+        for c in rng.sample(EXTRA_COLS, 3 if thorough else 1):
+            out.append(("extra_column_form", lab(c), mk({first: c})))
+    for n in params:
+        if n in OVERRIDE.get(ckey, {}):
+            continue
+        vals = [v for v in BOUNDARY.get(n, []) if n in kw and kw[n] != v]
+        for v in vals if thorough else rng.sample(vals, min(1, len(vals))):  # quick: one seeded pick per (class, parameter)
+            out.append(("boundary_value", f"{n}={lab(v)}", mk({n: v})))
+    for pair, vals in PAIRED_BOUNDARY.items():
+        if all(n in params for n in pair):
+            for vs in vals if thorough else rng.sample(vals, 1):
+                out.append(("boundary_value", f"{'/'.join(pair)}={lab(vs)}", mk(dict(zip(pair, vs)))))
+    # list-valued arguments given as other iterables (the signatures say Iterable): a one-shot iterator / generator, a tuple / range
+    lists = {n: kw[n] for n in params if isinstance(kw.get(n), list) and kw[n]}
+    for pair, vals in PAIRED.items():
+        if all(n in params for n in pair):
+            lists.update(next(dict(zip(pair, vs)) for vs in vals if all(isinstance(v, list) for v in vs)))
+    if lists:
+        one_shot = rng.choice(["iter", "gen"])
+        out.append(("iterable_form", one_shot, mk({n: {one_shot: v} for n, v in lists.items()})))
+        rangeable = lambda v: all(isinstance(x, int) for x in v) and v == list(range(v[0], v[0] + len(v)))  # noqa: E731
+        out.append(("iterable_form", "tuple/range", mk({n: ({"range": [v[0], v[0] + len(v)]} if rangeable(v) else {"tuple": v}) for n, v in lists.items()})))
+    # every optional argument left out: the (mutable) default objects of the signature themselves are used
+    if any(isinstance(p.default, (list, dict, set)) for p in params.values()):
+        out.append(("defaults_omitted", "", {"cls": base["cls"], "args": [], "kwargs": {k: v for k, v in kw.items() if params[k].default is inspect.Parameter.empty}}))
+    return out
+
+
+def shared_cases():
+    """kind 'multi': several consumers built around the SAME sub-objects (a ColumnExpression, a level / rule / comparison creator, a list,
+    a dict), called alternately; every output must be the one of that consumer built alone on new objects."""
+    E, N, J = level_spec("cll.ExactMatchLevel", "a"), level_spec("cll.NullLevel", "a"), level_spec("cll.JaroWinklerLevel", "a", 0.9)
+    R = lambda n: {"ref": n}  # noqa: E731
+    lvl = lambda spec: {"kind": "level", "spec": spec}  # noqa: E731
+    cmp_ = lambda spec: {"kind": "comparison", "spec": spec}  # noqa: E731
+    blk = lambda spec: {"kind": "blocking", "spec": spec}  # noqa: E731
+    else_ = level_spec("cll.ElseLevel")
+    return [
+        {"label": "one ColumnExpression in two levels and a blocking rule", "shared": {"C": col("first name", ["lower"])},
+         "consumers": [lvl(level_spec("cll.ExactMatchLevel", R("C"))), lvl(level_spec("cll.LevenshteinLevel", R("C"), 2)), blk({"fn": "brl.block_on", "args": [R("C"), "surname"]})]},
+        {"label": "sibling ColumnExpressions derived from one base, and the base", "shared": {"B": col("surname")},
+         "consumers": [lvl(level_spec("cll.ExactMatchLevel", {"col": R("B"), "ops": [["lower"]]})), lvl(level_spec("cll.ExactMatchLevel", {"col": R("B"), "ops": [["substr", 1, 3]]})), lvl(level_spec("cll.NullLevel", R("B"))),
+                       cmp_(level_spec("cl.ExactMatch", R("B")))]},
+        {"label": "derivations from a ColumnExpression that already has a transform", "shared": {"B": col("dob", ["try_parse_date"])},
+         "consumers": [lvl(level_spec("cll.AbsoluteDateDifferenceLevel", R("B"), input_is_string=True, threshold=1, metric="year")), lvl(level_spec("cll.ExactMatchLevel", R("B"))),
+                       lvl(level_spec("cll.ExactMatchLevel", {"col": R("B"), "ops": [["cast_to_string"]]})), cmp_(level_spec("cl.DateOfBirthComparison", R("B"), input_is_string=True))]},
+        {"label": "level creators in two configured CustomComparisons, a composition, and alone", "shared": {"E": E, "N": N, "J": J},
+         "consumers": [cmp_(level_spec("cl.CustomComparison", [R("N"), R("E"), else_], output_column_name="a", configure={"m_probabilities": [0.9, 0.1]})),
+                       cmp_(level_spec("cl.CustomComparison", [R("N"), R("E"), R("J"), else_], output_column_name="a", configure={"term_frequency_adjustments": True, "u_probabilities": [0.01, 0.09, 0.9]})),
+                       lvl(level_spec("cll.And", R("E"), R("J"))), lvl(R("E"))]},
+        {"label": "one LIST of levels given to two CustomComparisons", "shared": {"E": E, "N": N, "L": [R("N"), R("E"), else_]},
+         "consumers": [cmp_(level_spec("cl.CustomComparison", R("L"), output_column_name="a", configure={"m_probabilities": [0.7, 0.3]})), cmp_(level_spec("cl.CustomComparison", R("L"), output_column_name="b", comparison_description="second"))]},
+        {"label": "blocking rule creators in And / Or / Not and alone", "shared": {"R": level_spec("brl.ExactMatchRule", "a", salting_partitions=3), "C": level_spec("brl.CustomRule", "substr(l.b, 1, 2) = substr(r.b, 1, 2)", sql_dialect="duckdb")},
+         "consumers": [blk(level_spec("brl.And", R("R"), R("C"))), blk(level_spec("brl.Or", R("R"), level_spec("brl.Not", R("C")))), blk(R("R")), blk(R("C"))]},
+        {"label": "comparison / blocking creators in two SettingsCreators and alone", "shared": {"CC": level_spec("cl.LevenshteinAtThresholds", col("surname", ["lower"]), [1, 2], configure={"term_frequency_adjustments": True}),
+                                                                                                 "BR": {"fn": "brl.block_on", "args": ["first name", col("dob", ["substr", 1, 4])]}},
+         "consumers": [{"kind": "settings", "spec": {"link_type": "dedupe_only", "comparisons": [R("CC"), level_spec("cl.ExactMatch", "city")], "blocking_rules": [R("BR")]}},
+                       {"kind": "settings", "spec": {"link_type": "link_only", "comparisons": [R("CC")], "blocking_rules": [R("BR"), "l.city = r.city"]}}, cmp_(R("CC")), blk(R("BR"))]},
+        {"label": "one level DICT / rule DICT in several creators", "shared": {"D": {"raw": {"sql_condition": "a_l = a_r", "label_for_charts": "dict level"}}, "DM": {"raw": {"sql_condition": "a_l = a_r", "label_for_charts": "dict level", "m_probability": 0.7, "tf_adjustment_column": "a"}},
+                                                                                "X": {"raw": {"sql_condition": "ELSE", "label_for_charts": "else"}}, "BD": {"raw": {"blocking_rule": "l.c = r.c", "sql_dialect": "duckdb", "salting_partitions": 5}}},
+         "consumers": [cmp_(level_spec("cl.CustomComparison", [R("DM"), R("D"), R("X")], output_column_name="a")), lvl(level_spec("cll.And", E, R("D"))), cmp_(level_spec("cl.CustomComparison", [N, R("DM"), R("X")], output_column_name="a", configure={"m_probabilities": [0.6, 0.4]})),
+                       blk(level_spec("brl.And", level_spec("brl.ExactMatchRule", "a"), R("BD"))), blk(level_spec("brl.Not", level_spec("brl.Or", R("BD"), level_spec("brl.ExactMatchRule", "b"))))]},
+        {"label": "the same creator object twice inside one creator", "shared": {"E": E, "N": N, "R": level_spec("brl.ExactMatchRule", col("a", ["lower"]))},
+         "consumers": [cmp_(level_spec("cl.CustomComparison", [R("N"), R("E"), R("E"), else_], output_column_name="a", configure={"m_probabilities": [0.5, 0.3, 0.2]})), lvl(level_spec("cll.Or", R("E"), level_spec("cll.Not", R("E")))),
+                       blk(level_spec("brl.And", R("R"), R("R"))), lvl(R("N"))]},
+        {"label": "one thresholds LIST given to several comparisons", "shared": {"T": [1, 2], "S": [0.9, 0.8]},
+         "consumers": [cmp_(level_spec("cl.LevenshteinAtThresholds", "a", R("T"))), cmp_(level_spec("cl.DamerauLevenshteinAtThresholds", "b", R("T"))), cmp_(level_spec("cl.JaroWinklerAtThresholds", "a", R("S"))),
+                       cmp_(level_spec("cl.NameComparison", "a", jaro_winkler_thresholds=R("S")))]},
+    ]
+
+
 def kind_of(ckey: str, table_classes) -> str | None:
     import importlib
 
@@ -542,7 +1034,79 @@ def gen_cases(ctx, table: Table):
         else:
             c["exh_len"], c["pairs"], c["sampled"] = 2, 20, {"3": 6, "4": 4}
         c["seq_seed"] = rng.randrange(1 << 30)
-    return cases
+        c["family"] = c["tag"]
+        c["configure_steps"] = c["kind"] == "settings" or c["kind"] in ("level", "comparison") and (ctx.thorough or c["representative"] or c["tag"] == "composition")
+    return cases + more_cases(ctx, table, cases, lv, br, cm)
+
+
+SETTINGS_OPTIONS = {"em_convergence": 0.01, "max_iterations": 3, "retain_matching_columns": False, "retain_intermediate_calculation_columns": True, "additional_columns_to_retain": [],
+                    "unique_id_column_name": "id", "source_dataset_column_name": "src", "bayes_factor_column_prefix": "b_", "term_frequency_adjustment_column_prefix": "t_",
+                    "comparison_vector_value_column_prefix": "g_", "linker_uid": "fixed_uid", "probability_two_random_records_match": 0.5}
+
+
+def more_cases(ctx, table: Table, base_cases, lv, br, cm):
+    """The families added by the generator audit; built after (and with a random stream separate from) the original cases, which stay as they were."""
+    xr = random.Random(ctx.seed * 7919 + 17)
+    out = []
+    # around the first grid point of every class: further column forms, boundary values, iterable forms of list arguments, all defaults
+    for c in base_cases:
+        if c["tag"] == "grid" and c["representative"]:
+            ckey = next(k for k, v in MOD_ALIAS.items() if v == c["spec"]["cls"].split(".")[0]) + "." + c["spec"]["cls"].split(".")[1]
+            for fam, label, spec in grid_extras(ckey, c["spec"], ctx.thorough, xr):
+                out.append({"kind": c["kind"], "spec": spec, "tag": "grid", "family": fam, "family_label": label, "representative": False})
+    # compositions
+    E, N, J = level_spec("cll.ExactMatchLevel", "a"), level_spec("cll.NullLevel", col("b", ["lower"])), level_spec("cll.JaroWinklerLevel", "a", 0.9)
+    E2 = lambda c: level_spec("brl.ExactMatchRule", c)  # noqa: E731
+    else_ = level_spec("cll.ElseLevel")
+    lv2 = [level_spec("cll.Or", level_spec("cll.And", E, J), level_spec("cll.Not", level_spec("cll.And", N, E))), level_spec("cll.And", E),
+           level_spec("cll.And", E, {"raw": {"sql_condition": "substr(a_l, 1, 2) = substr(a_r, 1, 2)", "base_dialect_str": "duckdb"}}),
+           level_spec("cll.ExactMatchLevel", "a", configure={"tf_adjustment_column": "a", "tf_adjustment_weight": 0, "tf_minimum_u_value": 0.0, "fix_m_probability": False, "is_null_level": False})]
+    br2 = [level_spec("brl.And", E2("a"), {"raw": {"blocking_rule": "l.c = r.c", "sql_dialect": "duckdb"}}), level_spec("brl.Not", level_spec("brl.CustomRule", "substr(l.a, 1, 2) = substr(r.a, 1, 2)", sql_dialect="sqlite")),
+           {"fn": "brl.block_on", "args": ["a", "a"]}, level_spec("brl.And", E2("a"), E2("b"), arrays_to_explode=["a"]), level_spec("brl.Not", level_spec("brl.ExactMatchRule", "a", salting_partitions=3)),
+           level_spec("brl.And", level_spec("brl.ExactMatchRule", "a", arrays_to_explode=["a"]), E2("b")), {"fn": "brl.block_on", "args": ["a"], "kwargs": {"salting_partitions": 0, "arrays_to_explode": []}}]
+    cm2 = [level_spec("cl.CustomComparison", [level_spec("cll.NullLevel", "a"), N, E, else_], output_column_name="a", configure={"m_probabilities": [0.9, 0.1], "u_probabilities": [0.1, 0.9]}),
+           level_spec("cl.CustomComparison", [level_spec("cll.And", E, J), level_spec("cll.Or", N, E), else_], output_column_name="a", configure={"term_frequency_adjustments": True, "m_probabilities": [0.6, 0.3, 0.1]}),
+           level_spec("cl.CustomComparison", [])]
+    out += [{"kind": "level", "spec": x, "tag": "composition", "family": "composition", "representative": False} for x in lv2]
+    out += [{"kind": "blocking", "spec": x, "tag": "composition", "family": "composition", "representative": False} for x in br2]
+    out += [{"kind": "comparison", "spec": x, "tag": "composition", "family": "composition", "representative": False} for x in cm2]
+    # creators / lists / dicts shared between several consumers
+    for sc in shared_cases():
+        out.append({"kind": "multi", "shared": sc["shared"], "consumers": sc["consumers"], "spec": {"shared": sc["shared"], "consumers": sc["consumers"]}, "tag": "shared", "family": "shared_objects",
+                    "family_label": sc["label"], "representative": False, "per_pair": 3 if ctx.thorough else 2, "n_long": 20 if ctx.thorough else 8})
+    # settings: the saved-model dictionary and JSON file forms, every option non-default, nothing to build
+    st = [c for c in base_cases if c["kind"] == "settings" and c["tag"] == "settings"]
+    forms = []
+    for i, c in enumerate(st):
+        forms.append((c, {"form": "dict", "base": "duckdb"}))
+        if ctx.thorough or i in (0, 1):
+            forms.append((c, {"form": "path", "base": ("duckdb", "spark")[i % 2]}))
+        if ctx.thorough or i == 2:
+            forms.append((c, {"form": "pathobj", "base": "duckdb"}))
+        if ctx.thorough or i == 0:
+            forms.append((c, {"options": SETTINGS_OPTIONS}))
+        if ctx.thorough or i == 3:
+            forms.append((c, {"form": "dict", "base": "spark", "options": SETTINGS_OPTIONS}))
+    for c, ch in forms:
+        out.append({"kind": "settings", "spec": {**c["spec"], **ch}, "tag": "settings", "family": "settings_form", "representative": False})
+    out.append({"kind": "settings", "spec": {"link_type": "dedupe_only", "comparisons": [], "blocking_rules": []}, "tag": "settings", "family": "settings_form", "representative": False})
+    out.append({"kind": "settings", "spec": {"link_type": "link_only", "comparisons": [], "blocking_rules": [], "form": "dict", "base": "duckdb"}, "tag": "settings", "family": "settings_form", "representative": False})
+    for c in out:
+        cheap = c["kind"] in ("level", "blocking")
+        c["max_len"] = 4
+        if c["kind"] == "multi":
+            c["exh_len"], c["pairs"], c["sampled"] = 0, 0, {}
+        elif ctx.thorough:
+            c["exh_len"], c["pairs"], c["sampled"] = (3, "all", {"4": 30}) if cheap else (2, 30, {"3": 10, "4": 10})
+        elif cheap:
+            c["exh_len"], c["pairs"], c["sampled"] = 2, 12, {"3": 6, "4": 6}
+        elif c["kind"] == "settings":
+            c["exh_len"], c["pairs"], c["sampled"] = 2, 8, {"3": 3, "4": 3}
+        else:
+            c["exh_len"], c["pairs"], c["sampled"] = 1, 5, {"3": 2, "4": 2}
+        c["seq_seed"] = xr.randrange(1 << 30)
+        c["configure_steps"] = c["kind"] == "settings" or c["kind"] in ("level", "comparison") and (ctx.thorough or c["tag"] == "composition" or c["family"] in ("iterable_form", "defaults_omitted"))
+    return out
 
 
 # --------------------------------------------------------------------------- verdicts
@@ -573,6 +1137,15 @@ def verdicts(case, r, table: Table):
         probs.append(("generated SQL does not parse in its dialect (sqlglot)", r["parse_failures"][0]["dialect"], r["parse_failures"][0]))
     if case["kind"] == "settings" and not (r.get("dict_unchanged", True) and r.get("dict_creators_unchanged", True)):
         probs.append(("settings dict changed by SettingsCreator", "", {"dict_unchanged": r.get("dict_unchanged"), "creators_unchanged": r.get("dict_creators_unchanged")}))
+    # the caller's own argument objects (lists, dicts, ColumnExpressions, creators handed to a constructor): only dialect slots may differ
+    argch = {p: ch for p, ch in r.get("arg_changes", {}).items()
+             if not ([x for x in p.split(".") if x][-1] in table.slot_leaves and ch["direct"] == "column_expression.ColumnExpression")}
+    if argch:
+        p = sorted(argch)[0]
+        probs.append(("constructor argument changed by a call", "", {"argument_path": p, "before": argch[p]["before"], "after": argch[p]["after"], "sequence": argch[p]["sequence"], "all_changed": sorted(argch)[:8]}))
+    if r.get("global_changes"):
+        k = sorted(r["global_changes"])[0]
+        probs.append(("state outside the creator objects changed (default argument / class attribute / module global)", k.split("(")[0], {"what": k, "before": r["global_changes"][k][0], "after": r["global_changes"][k][1], "all_changed": sorted(r["global_changes"])[:8]}))
     return probs, {"unexplained": unexplained, "nonslot": nonslot}
 
 
@@ -593,13 +1166,26 @@ def run(ctx: core.Ctx):
         "quick: the same length <= 4 exhaustion for the first grid point of every level / blocking class, length <= 3 for the first grid point of every comparison class, length <= 2 for every other grid point, "
         "plus 2-step sequences involving get_* (all of them for levels and blocking rules, a seeded sample otherwise) and seeded random mixed-API sequences of length 3 and 4. "
         "dialects = those where a fresh object does not raise. non-trivial = at least 2 supported dialects and at least one attribute written; "
-        "distinct = hash of (kind, constructor spec)."
+        "distinct = hash of (kind, constructor spec). "
+        "ADDED BY THE GENERATOR AUDIT -- cases: around the first grid point of every class one (thorough: three) of 17 further column forms (a ColumnExpression constructed WITH a dialect, reserved word, hyphen, non-ASCII, leading digit, mixed case, "
+        "table-qualified / indexed reference, 3-step transform chains, regex with backslash classes + capture group, explicit date / timestamp formats, raw SQL holding a literal), boundary values of "
+        "every threshold / option (0, 1.0, 1e-07, empty / duplicated / unsorted threshold lists, salting 0, arrays_to_explode [] / 2 columns, empty literal / label / description, other base dialect), list arguments "
+        "given as one-shot iterator / generator / tuple / range (reference = the same call with a plain list), every optional argument omitted (the signature's own mutable default objects); further compositions; "
+        "10 'shared' cases (kind multi: one ColumnExpression / derivation base / level, rule, comparison creator / list / dict held by several creators or SettingsCreators, calls alternating between them); "
+        "settings as saved-model dictionary and JSON file (str and Path) through from_path_or_dict, every SettingsCreator option non-default, empty settings. "
+        "steps: besides create_*_dict / get_* also dialect-free calls (labels, descriptions, names, level counts, repr, configured levels) first / last / in between, calls in an UNSUPPORTED dialect (they raise) "
+        "followed by supported ones, configure(..) between calls, for a SettingsCreator: fields re-assigned between calls (reference = new object configured the same way). "
+        "observed besides outputs and vars(): the caller's argument objects (lists, dicts, ColumnExpressions, creators), default-argument objects / class attributes / module-level containers of the anchored modules; "
+        "history pass: every reference output recomputed in 8 processes of their own (create_*_dict; 5 x one dialect only, cases forwards / backwards; 3 x a third of the cases with the dialects in reverse order) and compared with the main pass."
     )
     ctx.assumptions = [
         "'parses in that dialect' is decided by sqlglot.parse_one(sql, read=<the SplinkDialect's sqlglot name>) -- sqlglot is the oracle for this clause, outside Lean",
         "T-writes is flow-insensitive about aliases, treats attributes of a shallow copy(self) as fresh and trusts __init__ not to write into its arguments; whatever it misses shows up as an attribute change the table cannot explain (reported as a broken correspondence)",
         "a dialect in which a *fresh* object raises (ValueError 'not supported', NotImplementedError, or any other error from /repo) is outside the quantifier for that creator and is counted under unsupported_dialect",
         "dialect slots (attributes the generated table marks dialectSlot, e.g. ColumnExpression.sql_dialect) may differ before/after; comparison creators share their ColumnExpression objects with the level creators they build, so the slot of a shared ColumnExpression counts as a slot",
+        "an iterable argument (iterator, generator, tuple, range) means the list of its elements: the reference object of such a case is built from the plain lists",
+        "a settings dictionary / JSON file written for one dialect is SQL of that dialect: its strings are parse-checked in that dialect only (the call sequences still run over every dialect in which a fresh object does not raise)",
+        "new class attributes / module globals (a correctly keyed cache) are not by themselves a violation: only existing default-argument objects, class attributes and module-level containers are compared, and the history pass decides whether outputs of new objects depend on earlier calls",
         "outputs are compared as canonical JSON of create_level_dict / get_comparison_level().as_dict() / create_comparison_dict / get_comparison().as_dict() / create_blocking_rule_dict / get_blocking_rule().as_dict() / create_settings_dict / get_settings().as_dict(), labels, descriptions, output column names",
     ]
     terrs, classes, rows = twrites.write()
@@ -617,8 +1203,13 @@ def run(ctx: core.Ctx):
         from harness import graphs
 
         cases = list(graphs.load_corpus(PROP)) + gen_cases(ctx, table)
-    cases.sort(key=lambda c: -({"settings": 30, "comparison": 10}.get(c["kind"], 1) * (8 if c["exh_len"] >= (4 if c["kind"] in ("level", "blocking") else 3) else 1)))
+    cases.sort(key=lambda c: -({"settings": 30, "comparison": 10, "multi": 25}.get(c["kind"], 1) * (8 if c["exh_len"] >= (4 if c["kind"] in ("level", "blocking") else 3) else 1)))
     res = core.pmap(run_impl_safe, cases, chunksize=1)
+    # ---- history independence of NEW objects: the reference outputs again, in processes that serve one dialect only / the dialects in
+    # the opposite order, cases in the same / the opposite order (see history_pass)
+    payload = [(i, c, r["fresh_digest"]) for i, (c, r) in enumerate(zip(cases, res)) if isinstance(r, dict) and "fresh_digest" in r]
+    tasks = [{"dialects": [d], "reverse": j % 2 == 1, "cases": payload} for j, d in enumerate(DIALECTS)] + [{"dialects": DIALECTS[::-1], "reverse": True, "cases": payload[k::3]} for k in range(3)]
+    hist = run_isolated(history_pass, tasks) if payload and not ctx.replay else []
 
     concrete, broken = [], []
     per_class: dict[str, dict] = {}
@@ -630,11 +1221,27 @@ def run(ctx: core.Ctx):
         if "constructor_rejects" in r:
             ctx.count("excluded", "constructor rejects the argument combination")
             continue
+        if "form_rejected" in r:
+            concrete.append((c, "constructor raises for an iterable argument but accepts the list of the same elements", {"error": r["form_rejected"]}, None))
+            continue
         nontrivial = len(r["supported"]) >= 2 and bool(r["state_changes"])
         ctx.case({"kind": c["kind"], "spec": c["spec"]}, nontrivial,
                  sample={"kind": c["kind"], "spec": c["spec"], "supported": r["supported"], "sequences": r["sequences"], "calls": r["calls"], "changed_attributes": sorted(r["state_changes"])[:6]} if c["tag"] != "grid" or c["representative"] else None)
         ctx.count("kind", c["kind"]); ctx.count("class", r["cls"]); ctx.count("n_supported_dialects", len(r["supported"])); ctx.count("exhaustive_sequence_length", c["exh_len"])
         ctx.count("sequences_run", "total", r["sequences"]); ctx.count("calls_made", "total", r["calls"])
+        ctx.count("family", c.get("family", c.get("tag", "corpus")))
+        if c.get("family") in ("extra_column_form", "boundary_value", "iterable_form", "shared_objects"):
+            ctx.count(c["family"], c.get("family_label", ""))
+        if c["kind"] == "settings":
+            ctx.count("settings_form", c["spec"].get("form", "creator") + (" + every option non-default" if c["spec"].get("options") else "") + (" (nothing to build)" if not c["spec"]["comparisons"] else ""))
+        for sk, n in r.get("steps", {}).items():
+            ctx.count("steps_by_kind", {"dict": "create_*_dict(dialect)", "obj": "get_*(dialect)", "meta": "dialect-free calls (label / description / names / counts / repr)",
+                                        "configure": "configure(..) between calls", "failed_call": "call in an unsupported dialect (raises) inside a sequence"}[sk], n)
+        ctx.count("constructor_arguments_watched", "total", r.get("args_kept", 0))
+        for k in r.get("global_containers_changed", []):
+            ctx.count("module_or_class_level_container_changed (not a violation by itself)", k)
+        if r.get("configure_raised"):
+            ctx.count("configure_raised", r["cls"], r["configure_raised"])
         for d, why in r["unsupported"].items():
             ctx.count("unsupported_dialect", f"{d}: {why[:60]}")
         if not r["supported"]:
@@ -652,6 +1259,16 @@ def run(ctx: core.Ctx):
             concrete.append((c, failure + (f" ({cause})" if cause else ""), detail, r))
         if not probs:
             ctx.traces_validated += 1
+    # ---- history pass
+    for t, h in zip(tasks, hist):
+        what = (f"{t['dialects'][0]} only" if len(t["dialects"]) == 1 else "a third of the cases, the five dialects in reverse order") + f", cases {'last to first' if t['reverse'] else 'first to last'}"
+        if "__error__" in h:
+            raise core.HarnessError(f"history pass ({what}) failed: {h['__error__']}: {h['text']}\n{h.get('tb', '')}")
+        ctx.count("history_pass_comparisons", what, h["compared"])
+        for m in h["mismatches"]:
+            c, r = cases[m["case_index"]], res[m["case_index"]]
+            concrete.append((c, "output of a NEW object depends on what the process did before (state outside the object)",
+                             {"call": m["key"], "isolated_process": what, "in_isolated_process": m["isolated"], "in_main_pass": r["fresh"].get(m["key"])}, r))
     # ---- correspondence: what the table + compiled model predict per class vs what was observed
     keys = sorted(per_class)
     pred = drv.batch([{"op": "creator_calls", "cls": k, "ds": ["duckdb", "spark", "duckdb", "duckdb"]} for k in keys])
